@@ -95,15 +95,15 @@ cases = [gen() for _ in range(n)]
 src = """From Coq Require Import List NArith ZArith Bool. Import ListNotations.
 From CliUtils Require Import Model.PipelineTypes Model.Pipeline Corr.CorrPipeline.
 (* boolean WF (the clauses of Proofs/PipelineOrphansRun.v, written out here so that the fuzzer only needs Model + Corr) *)
-Fixpoint nodupb (l : list nat) : bool := match l with [] => true | x :: t => negb (memn x t) && nodupb t end.
+Fixpoint nodupb' (l : list nat) : bool := match l with [] => true | x :: t => negb (memn x t) && nodupb' t end.
 Definition fin_ok (sc : scenario) (c0 : cluster) (o : sobs) : bool :=
   negb (u_fin (uinfo_of sc (s_id o))) ||
   ((%s || negb (kst_eqb (s_st o) SNotFound)) &&
    (%s || negb (s_body o) || N.eqb (s_uid o) 0 ||
     match find_obj (objs c0) (s_id o) with Some c => N.eqb (s_uid o) (c_uid c) | None => true end)).
 Definition wfb (sc : scenario) (c0 : cluster) : bool :=
-  (o_destroy (sc_opts sc) || nodupb (map l_id (sc_local sc)))
-  && nodupb (map c_id (objs c0))
+  (o_destroy (sc_opts sc) || nodupb' (map l_id (sc_local sc)))
+  && nodupb' (map c_id (objs c0))
   && forallb (fun c => N.ltb (c_uid c) (next_uid c0)) (objs c0)
   && forallb (fun c => forallb (fun c' => negb (N.eqb (c_uid c) (c_uid c')) || Nat.eqb (c_id c) (c_id c')) (objs c0)) (objs c0)
   && match sc_inv_ns sc, inv c0 with Some n, Some l => memn n (map c_id (objs c0)) || memn n l | _, _ => true end
@@ -121,7 +121,7 @@ Definition kf_patternb (prev : list id) (t : list item) : bool :=
     | _ => false
     end) t.
 Definition okb (sc : scenario) (c0 : cluster) (out : outcome) : bool :=
-  wfb sc c0 && negb (kf_patternb (prev_of c0) (out_trace out)).
+  %s && negb (kf_patternb (prev_of c0) (out_trace out)).
 Definition cases : list (cluster * scenario) := [
 %s
 ].
@@ -147,7 +147,9 @@ Definition stats := Eval vm_compute in
                     existsb (fun it => match it with IReq (RDelete i _ _) true _ _ => u_fin (uinfo_of sc i) | _ => false end) (out_trace out)
                     && existsb (fun it => match it with IEv (EStarted (GInvSet, 0)) => true | _ => false end) (out_trace out)) cases)).
 Print stats.
-""" % (b(FIN_WF == "none"), b(FIN_WF != "full"), ";\n".join(cases))
+""" % (b(FIN_WF == "none"), b(FIN_WF != "full"),
+       # full: the official boolean WF of Corr/CorrPipeline.v (wf_b_spec: wf_b sc c0 = true <-> WF sc c0)
+       "wf_b sc c0" if FIN_WF == "full" else "wfb sc c0", ";\n".join(cases))
 d = "/tmp/modelfuzz_fin_%d" % seed
 os.makedirs(d, exist_ok=True)
 open(d + "/f.v", "w").write(src)
